@@ -11,6 +11,7 @@ from ..pxv import Obj, Sym
 from ..su import norm
 from ..te import ClassRef, Member, TypeRef
 from .app_rx import APP, NAMED, PARAMS_SENT, ROLES_SENT, VERSIONS, app_cls, explore_callback, rx_fields
+from .util import anchor_attrs
 from .util import const, fut, same_class, self_obj, text
 
 BUSY = ("ZIGBEE_MAX_MESSAGE_LIMIT_REACHED", "TRANSMIT_BUSY", "ALLOCATION_FAILED")
@@ -82,6 +83,7 @@ def r12_1(ctx):
     last enqueue was accepted and - for unicast - that the confirmation was awaited inside
     asyncio_timeout(APS_ACK_TIMEOUT) and normalises to OK; a failed confirmation raises DeliveryError, a missing
     one a timeout; multicast and broadcast return after an accepted enqueue without waiting."""
+    anchor_attrs(ctx, "ControllerApplication", "_pending", "_req_lock", "_ezsp")
     repo = ctx.repo
     delays = repo.get(APP, "RETRY_DELAYS")
     tmo = const(ctx, APP, "APS_ACK_TIMEOUT")
